@@ -547,16 +547,9 @@ func (r *Run) c06Remap(sums *Summaries) {
 			src := args[0].String()
 			ok, why := traitRemapped(args[1], src+".Trait", 1)
 			r.Check(ok, "duplicateNodes.trait", p.Pos(c.Pos()), "node trait <- nil | TraitWithId(source node's trait id, duplicated traits)", why)
-			// registered in the map under its own id
-			found := false
-			Instrs(dupNodes, func(_ *ssa.BasicBlock, _ int, in ssa.Instruction) {
-				if mu, isMU := in.(*ssa.MapUpdate); isMU && mu.Value == c.Value() {
-					k := tm.Of(mu.Key)
-					if k.Op == "field" && k.Name == "Id" && k.Args[0].V == c.Value() {
-						found = true
-					}
-				}
-			})
+			// registered in the map under its own id (directly, under the source's id that the constructor copies,
+			// or by a second pass over the filled node list: robust_c06.go)
+			found := c06NodeRegistered(p, sums, dupNodes, c)
 			r.Check(found, "duplicateNodes.map", p.Pos(c.Pos()), "the new node is registered in the node map under its own id", "the copied node is not registered in the duplicate's node map under its own id")
 		}
 		r.Floor("NewNNodeCopy call sites in duplicateNodes", len(calls), 1)
@@ -595,7 +588,9 @@ func (r *Run) c06Remap(sums *Summaries) {
 		mcalls := CallsTo(dupCG, newMIMOCopy)
 		for _, c := range mcalls {
 			r.CallSites++
-			args := callArgTerms(tm, c.Common())
+			// the arguments as seen at the call: a control node that comes out of an inlined helper together with an
+			// error is a phi whose nil alternatives belong to the error exits (correlated-phi narrowing)
+			args := callArgTerms(NewTermerAt(dupCG, c.Block()), c.Common())
 			src := args[0].String()
 			nodeCopy := args[1]
 			if !isCallTo(nodeCopy, newNNodeCopy) {
@@ -921,7 +916,7 @@ func (r *Run) c06NilModulesGuard(flat *ssa.Function, sites []c06ResultSite) {
 		if k, ok := arg.(*ssa.Const); ok && k.Value == nil {
 			nilAt = append(nilAt, rs.call.Block())
 		} else if ph, ok := arg.(*ssa.Phi); ok {
-			feas := FeasibleEdges(ph, Guards(rs.call.Block()))
+			feas := c06FeasibleEdges(ph, Guards(rs.call.Block()))
 			for i, e := range ph.Edges {
 				if k, ok := e.(*ssa.Const); ok && k.Value == nil && feas[i] {
 					nilAt = append(nilAt, ph.Block().Preds[i])
